@@ -5,7 +5,10 @@ use crate::progen;
 use proptest::prelude::*;
 use serde_json::{Value, json};
 
-const TRIVIA: &[&str] = &[" ", "  ", "\t", "\n", "\n\n", " // note\n", " /* c */ ", " /* a\n b */ ", " \\\n", "\r\n", " \\\r\n "];
+const TRIVIA: &[&str] = &[" ", "  ", "\t", "\n", "\n\n", " // note\n", " /* c */ ", " /* a\n b */ ", " \\\n", "\r\n", " \\\r\n ",
+    // comments whose text begins or ends with the delimiter characters
+    " /*/ a */ ", " /*/*/ ", " /***/ ", " /**/ ", " /* /* */ ", " /*//*/ ", " /*/\n*/ ", " /* a **/ ", " /* \" */ ", " /* ' */ ", " // */\n", " // /*\n", " /// \"\n", " /* *//**/ ",
+];
 const HTRIVIA: &[&str] = &[" ", "  ", "\t", " \\\n ", "\t\t"];
 
 /// Insert trivia at token boundaries. Boundaries: every existing blank or newline (replaced by a
@@ -16,8 +19,8 @@ fn add_trivia(text: &str, picks: &[u8]) -> (String, usize, usize) {
     let mut out = String::with_capacity(text.len() * 2);
     let mut k = 0usize;
     let mut used = 0usize;
-    let mut kinds = [false; 16];
-    let mut next = |pool: &[&'static str], kinds: &mut [bool; 16], used: &mut usize| -> Option<&'static str> {
+    let mut kinds = [false; 32];
+    let mut next = |pool: &[&'static str], kinds: &mut [bool; 32], used: &mut usize| -> Option<&'static str> {
         let p = picks[k % picks.len()];
         k += 1;
         if p % 3 != 0 {
